@@ -19,6 +19,7 @@ struct Trace {
   std::vector<uint64_t> digests;   // state digest before executing ips[k]
   bool halted = false;
   std::vector<Loc> available;
+  size_t maxsteps = 1500;
 };
 
 static uint64_t state_digest(Theo::VM &vm, const Theo::Program &prog) {
@@ -39,6 +40,7 @@ static uint64_t state_digest(Theo::VM &vm, const Theo::Program &prog) {
 
 static void build_trace(const Theo::Program &prog, size_t maxsteps, Trace &tr) {
   tr.prog = prog;
+  tr.maxsteps = maxsteps;
   Theo::VM vm(prog);
   for (size_t k = 0; k <= maxsteps; k++) {
     tr.ips.push_back(vm.verif_ip());
@@ -54,7 +56,7 @@ static void build_trace(const Theo::Program &prog, size_t maxsteps, Trace &tr) {
 }
 
 struct Op {
-  enum K { EXECUTE, SINGLE, SINGLE_N, STEP_ON, STEP_OFF, ENABLE, DISABLE, CLEAR, RESET, READ } k = SINGLE;
+  enum K { EXECUTE, SINGLE, SINGLE_N, STEP_ON, STEP_OFF, ENABLE, DISABLE, CLEAR, RESET, READ, ENABLE_ALL } k = SINGLE;
   Loc loc;
   int n = 1;
 };
@@ -71,6 +73,7 @@ static std::string op_str(const Op &o) {
     case Op::CLEAR: return "clear";
     case Op::RESET: return "reset";
     case Op::READ: return "read";
+    case Op::ENABLE_ALL: return "enable-all";
   }
   return "?";
 }
@@ -249,6 +252,19 @@ static bool run_history(const Trace &tr, const std::vector<Op> &ops, Result &r, 
         }
         break;
       }
+      case Op::ENABLE_ALL:  // "break everywhere": every available location, in table order
+        for (auto &loc : tr.available) {
+          bool ret = vm.setBreakPoint(loc.first, loc.second, true);
+          if (shadow) shadow->setBreakPoint(loc.first, loc.second, true);
+          if (!ret) {
+            ret_bool = false;
+            model_ret = true;
+            have_ret = true;
+          }
+          m.E.insert(loc);
+        }
+        if (m.k > 0) st.toggles_after_start++;
+        break;
       case Op::CLEAR:
         vm.clearBreakpoints();
         if (shadow) shadow->clearBreakpoints();
@@ -406,7 +422,7 @@ static Op decode_op(Tape &t, const Trace &tr, bool with_reset) {
   pool.push_back({"nofile.theo", 1});
   pool.push_back({tr.available.empty() ? std::string("main.theo") : tr.available[0].first, 99999});
   pool.push_back({"__standards__", 1});
-  switch (t.weighted({5, 5, 3, 2, 2, 6, 3, 1, (unsigned)(with_reset ? 2 : 0), 1})) {
+  switch (t.weighted({5, 5, 3, 2, 2, 6, 3, 1, (unsigned)(with_reset ? 2 : 0), 1, 1})) {
     case 0: o.k = Op::SINGLE; break;
     case 1: o.k = Op::EXECUTE; break;
     case 2:
@@ -426,12 +442,14 @@ static Op decode_op(Tape &t, const Trace &tr, bool with_reset) {
     case 7: o.k = Op::CLEAR; break;
     case 8: o.k = Op::RESET; break;
     case 9: o.k = Op::READ; break;
+    case 10: o.k = Op::ENABLE_ALL; break;
   }
   return o;
 }
 
-static J history_json(const glue::Files &files, const std::string &main, const std::vector<Op> &ops) {
+static J history_json(const glue::Files &files, const std::string &main, const std::vector<Op> &ops, size_t trace_steps = 1500) {
   J j = glue::files_json(files, main);
+  j.set("trace_steps", (unsigned long)trace_steps);
   J h = J::arr();
   for (auto &o : ops) h.push(op_str(o));
   j.set("history", h);
@@ -603,6 +621,7 @@ static bool parse_op(const std::string &s, Op &o) {
   } else if (s == "clear") o.k = Op::CLEAR;
   else if (s == "reset") o.k = Op::RESET;
   else if (s == "read") o.k = Op::READ;
+  else if (s == "enable-all") o.k = Op::ENABLE_ALL;
   else return false;
   return true;
 }
@@ -616,7 +635,7 @@ static void json_dbg(const J &c, Result &r, const std::string &prop) {
     return;
   }
   Trace tr;
-  build_trace(cr.code, 1500, tr);
+  build_trace(cr.code, c.has("trace_steps") ? (size_t)c.at("trace_steps").i() : 1500, tr);
   std::vector<Op> ops;
   for (auto &e : c.at("history").a) {
     Op o;
@@ -628,9 +647,51 @@ static void json_dbg(const J &c, Result &r, const std::string &prop) {
   classify(st, r, prop);
 }
 
+// resume-length sweep: execute() must stop at the first enabled site however many instructions it has to run
+// first. A long-running fixed program is stepped k instructions by hand (every k in 0..1100), then a breakpoint on
+// a late line is enabled and execute() resumes: a bounded-exhaustive sweep over the distance to the stop
+static void sweep_resume_lengths(Runner &run, int shard, int nshards, const std::string &prop) {
+  glue::Files files{{"main.theo", "x0 := 400;\nWHILE x0 != 0 DO\nx1 := x1 + 2;\nx0 := x0 - 1\nEND;\nx2 := x1;\nx3 := 7"}};
+  Theo::CodegenResult cr = Theo::compile(files, "main.theo");
+  if (!cr.generated_correctly) {
+    Result r;
+    r.harness_error = true;
+    r.msg = "sweep program does not compile";
+    run.record(r);
+    return;
+  }
+  Trace tr;
+  build_trace(cr.code, 6000, tr);
+  for (int k = shard; k <= 1100; k += nshards) {
+    std::vector<Op> ops;
+    Op step;
+    step.k = Op::SINGLE_N;
+    step.n = k;
+    if (k) ops.push_back(step);
+    Op en;
+    en.k = Op::ENABLE;
+    en.loc = {"main.theo", 6};
+    ops.push_back(en);
+    Op ex;
+    ex.k = Op::EXECUTE;
+    ops.push_back(ex);
+    ops.push_back(ex);
+    Result r;
+    HistoryStats st;
+    r.sample = history_json(files, "main.theo", ops, tr.maxsteps);
+    r.hash = fnv1a(&k, sizeof k, 0x5eed);
+    run.journal_case(r.sample);
+    run_history(tr, ops, r, st);
+    classify(st, r, prop);
+    r.cls("enum:resume-length-sweep");
+    run.record(r);
+    if (run.stop_enumeration()) return;
+  }
+}
+
 #define DBG_PROP(ID)                                                                                                        \
   static void prop_##ID(Tape &t, Result &r) { setenv("VERIF_FAMILY", #ID, 0); prop_dbg(t, r, #ID); }                        \
-  static void enum_##ID(Runner &run, int s, int n, const std::string &tier) { setenv("VERIF_FAMILY", #ID, 0); enum_dbg(run, s, n, tier, #ID); } \
+  static void enum_##ID(Runner &run, int s, int n, const std::string &tier) { setenv("VERIF_FAMILY", #ID, 0); enum_dbg(run, s, n, tier, #ID); sweep_resume_lengths(run, s, n, #ID); } \
   static void json_##ID(const J &c, Result &r) { setenv("VERIF_FAMILY", #ID, 0); json_dbg(c, r, #ID); }                     \
   static Reg reg_##ID({#ID, 400, prop_##ID, enum_##ID, json_##ID});
 
